@@ -26,7 +26,7 @@ def run(chk):
     cases = []
     for k in range(3 if quick else 9):
         fin = finals[k % 3]
-        base = {"nx": 1, "ny": rng.choice([1, 2]), "months": 12, "H": 100.0, "heights": [60.0, 97.5, 135.0], "loads": {"kind": ["balanced", "heating", "cooling"][k % 3], "scale": 6000.0, "seed": k + 1},
+        base = {"nx": 1, "ny": rng.choice([1, 2]), "months": (24 if k % 3 == 1 else 12), "H": 100.0, "heights": [60.0, 97.5, 135.0], "loads": {"kind": ["balanced", "heating", "cooling"][k % 3], "scale": 6000.0, "seed": k + 1},
                 "pipe": ["SINGLEUTUBE", "DOUBLEUTUBESERIES", "COAXIAL"][k % 3]}
         hs = [fin] + [gen_ops(rng, rng.randrange(1, 5), fin) for _ in range(3)]
         for h in hs:
@@ -48,6 +48,10 @@ def run(chk):
         if excs:
             chk.violation("ghe-history", pub, {"raised": excs[0]}, "a simulation on an object with earlier simulations behaves like on a fresh object (no exception)")
             continue
+        changed = [rec for rec in o["trace"] if rec.get("loads_same") is False]
+        if changed and len(chk.violations) < 4:
+            chk.violation("ghe-history", pub, {"after": changed[0]["op"], "hourly_loads_now": changed[0]["loads_len"], "hourly_loads_given": 8760},
+                          "an operation leaves the object's inputs (the year of hourly loads) as they were given: later calls and the written Loadings table see the same 8760 values")
         nontrivial += 1
         groups.setdefault(c["_group"], []).append((pub, last.get("stored")))
     for k, lst in groups.items():
